@@ -64,7 +64,7 @@ def run(ctx):
     res = Result("C14")
     pure_part(ctx, res)
     results, cover, shapes = common.e1_check(
-        ctx, res, PROFILE, n_quick=96, n_thorough=480, steps=150, steps_thorough=300,
+        ctx, res, PROFILE, n_quick=96, n_thorough=1920, steps=150, steps_thorough=300,
         relevant=lambda t: t[0] in ("join", "speak", "oper", "who", "whois", "chanlist"),
         nontrivial_rule="(pure) match_wildcard and normalize_sourcemask of the live sources against a textbook DP glob "
                         "and the completion rule, every call under catch_unwind: exhaustive small alphabets + random long "
